@@ -12,7 +12,8 @@ import (
 //
 // Backend calls are attributed to requests through the task that consumed the
 // request's bytes from the connection (p9 handles a request on the goroutine
-// that received it).  At the step where an Rflush(t) frame is complete on the
+// that received it) and through every task spawned by such a task before it
+// consumes a frame of its own.  At the step where an Rflush(t) frame is complete on the
 // wire, no backend call attributed to the request that held tag t may be
 // running, and none may start afterwards.
 
@@ -45,12 +46,16 @@ var c14Kinds = []c14X{
 		func(c *SrvConn) bool { return true }},
 	{"clunk", func() rc.Message { return &rc.Tclunk{Fid: 1} }, "Close", 0,
 		func(c *SrvConn) bool { return c.WalkTo(0, 1, "/b") }},
+	// a walk onto a fid number that is bound: the replaced file's Close is
+	// made on behalf of the walk
+	{"walk-replace", func() rc.Message { return &rc.Twalk{Fid: 0, NewFid: 1, Names: []string{"a"}} }, "Close", 0,
+		func(c *SrvConn) bool { return c.WalkTo(0, 1, "/b") }},
 	{"readdir", func() rc.Message { return &rc.Treaddir{Fid: 1, Offset: 0, Count: 500} }, "Readdir", 0,
 		func(c *SrvConn) bool { return c.WalkTo(0, 1, "/a") && Errno(c.RPC(&rc.Tlopen{Fid: 1, Flags: 0})) == 0 }},
 }
 
 var c14Timings = []string{"during", "pipelined", "after"}
-var c14Variants = []string{"one", "two", "chain3", "self", "idle", "with-traffic"}
+var c14Variants = []string{"one", "two", "chain3", "self", "idle", "with-traffic", "answered-with-protocol-error"}
 
 func c14Cases() int { return len(c14Kinds) * len(c14Timings) * len(c14Variants) }
 
@@ -89,7 +94,7 @@ func (fw *flushWatch) onEnter(call *simfs.Call) {
 	if x, ok := call.Req.(*FrameRec); ok && !fw.begun.Get(x) {
 		fw.begun.Set(x, true)
 	}
-	if x, ok := call.Req.(*FrameRec); ok && fw.flushed.Get(x) && x.Reply == nil {
+	if x, ok := call.Req.(*FrameRec); ok && fw.flushed.Get(x) {
 		fw.rcx.Find("C14", "call-after-rflush", call.Method, "backend call %s started for %s after the Rflush naming its tag was sent", call, x)
 	}
 }
@@ -156,7 +161,7 @@ func runC14(rcx *RunCtx) {
 		reqX = c.Send(tx, kind.Build())
 		sendFlush := func(old uint16, target *FrameRec) *FrameRec {
 			f := c.Send(c.Tag(), &rc.Tflush{OldTag: old})
-			if target != nil && target.Reply == nil {
+			if target != nil {
 				fw.targetOf.Set(f, target)
 			}
 			return f
@@ -190,6 +195,26 @@ func runC14(rcx *RunCtx) {
 			simrt.WaitQuiescent()
 			if f.Reply == nil || f.Reply.Type != rc.TypeRflush {
 				rcx.Find("C14", "self-flush-not-answered", "self", "a Tflush naming its own tag was not answered at once (X %s parked=%v)", kind.Name, held != nil)
+			}
+			flushes = append(flushes, sendFlush(tx, reqX))
+		case "answered-with-protocol-error":
+			// a tag that was answered from the protocol-error path is as idle
+			// as any other answered tag, and free for re-use
+			t := c.Tag()
+			bad := c.Send(t, &rc.Opaque{Type: []uint8{3, 54, 211}[rcx.Index%3], Body: []byte{1, 2, 3}})
+			simrt.WaitQuiescent()
+			if bad == nil || bad.Reply == nil || bad.Reply.Type != rc.TypeRlerror {
+				rcx.Find("C14", "setup", "protocol-error", "an undecodable frame was not answered with Rlerror")
+			}
+			f := c.Send(c.Tag(), &rc.Tflush{OldTag: t})
+			simrt.WaitQuiescent()
+			if f.Reply == nil || f.Reply.Type != rc.TypeRflush {
+				rcx.Find("C14", "idle-flush-not-answered", "answered-with-protocol-error", "a Tflush naming a tag that was answered with a protocol error was not answered at once (X %s parked=%v)", kind.Name, held != nil)
+			}
+			again := c.Send(t, &rc.Tstatfs{Fid: 7})
+			simrt.WaitQuiescent()
+			if again.Reply == nil {
+				rcx.Find("C14", "tag-not-released", "answered-with-protocol-error", "a request re-using the tag of a frame that was answered with a protocol error got no reply (X %s parked=%v)", kind.Name, held != nil)
 			}
 			flushes = append(flushes, sendFlush(tx, reqX))
 		case "idle":
@@ -248,8 +273,8 @@ func init() {
 		Run:  runC14,
 		Directed: func(string) int { return c14Cases() },
 		Quick:    32000, Thorough: 500000, QuickSecs: 60, ThorSecs: 1200,
-		Rule:  fmt.Sprintf("directed: %d flushed request kinds (read, write, getattr, 3-component walk parked at component 2, rename parked in RenameAt, renameat parked in a Renamed notification, create, unlinkat, clunk parked in Close, readdir) x flush arrival {while parked, pipelined right behind, after completion} x {one flush, two flushes of the tag, chain of three, plus a self-flush, plus an idle-tag flush, plus unrelated traffic}; random: the same dimensions drawn from the tape with varied schedules. Oracle: backend calls attributed to requests via the task that consumed the request's bytes; at the step an Rflush frame completes, no call of the flushed request is between enter and exit and none is entered later; with X parked and the system quiescent no Rflush naming it exists; idle/own/answered tags are answered at quiescence without releasing anything; X's own reply arrives exactly once and is not an error. Non-trivial = X actually parked (timing 'during'/'pipelined') or was answered before the flush ('after').", len(c14Kinds)),
-		Assume: []string{"p9 handles a request on the goroutine that received it, so the consuming task identifies the request"},
+		Rule:  fmt.Sprintf("directed: %d flushed request kinds (read, write, getattr, 3-component walk parked at component 2, rename parked in RenameAt, renameat parked in a Renamed notification, create, unlinkat, clunk parked in Close, walk onto a bound fid number parked in the replaced file's Close, readdir) x flush arrival {while parked, pipelined right behind, after completion} x {one flush, two flushes of the tag, chain of three, plus a self-flush, plus an idle-tag flush, plus unrelated traffic, plus flush and re-use of a tag that was answered from the protocol-error path}; random: the same dimensions drawn from the tape with varied schedules. Oracle: backend calls attributed to requests via the task that consumed the request's bytes; at the step an Rflush frame completes, no call of the flushed request is between enter and exit and none is entered later; with X parked and the system quiescent no Rflush naming it exists; idle/own/answered tags are answered at quiescence without releasing anything; X's own reply arrives exactly once and is not an error. Non-trivial = X actually parked (timing 'during'/'pipelined') or was answered before the flush ('after').", len(c14Kinds)),
+		Assume: []string{"a backend call is made on behalf of the request whose frame its task consumed last, or whose handler task spawned it"},
 		Real:   []string{"p9.Server", "p9 tag table / handlers", "p9 wire codec"},
 		Stub:   []string{"transport (simnet pipes)", "backend tree (simfs)", "raw 9P peer (refcodec)"},
 	})
